@@ -259,11 +259,18 @@ func crashCheck(t *testing.T, id string, prof Profile, rule string, quick, thoro
 			if provPct > 0 && rapid.IntRange(0, 99).Draw(t, "provplan") < provPct {
 				return Plan{Profile: "provider-sync", Prov: genProvPlan(t)}
 			}
+			if handlePct > 0 && rapid.IntRange(0, 99).Draw(t, "handleplan") < handlePct {
+				return Plan{Profile: "blob-handle-codec", Handles: genHandles(t)}
+			}
 			return Generate(t, prof)
 		},
 		Exec: func(pl Plan) (evid.Outcome, error) {
 			if pl.Prov != nil {
 				return execProvOutcome(pl.Prov)
+			}
+			if len(pl.Handles) > 0 {
+				c, err := execHandles(pl.Handles)
+				return evid.Outcome{Counters: c, Labels: []string{"kind=blob-handle-codec"}, NonTrivial: c["handle-roundtrips-wide-field"] > 0}, err
 			}
 			res, err := RunPlan(pl, nil)
 			out := res.Outcome()
@@ -278,6 +285,9 @@ func crashCheck(t *testing.T, id string, prof Profile, rule string, quick, thoro
 // provPct is the share of provider-level schedule cases in the checks that
 // include them (C10, C12).
 var provPct = 0
+
+// handlePct is the share of blob-handle codec cases (C44).
+var handlePct = 0
 
 func execProvOutcome(p *ProvPlan) (evid.Outcome, error) {
 	c, err := execProvPlan(p)
@@ -559,6 +569,8 @@ var profValSep = Profile{
 }
 
 func TestC44(t *testing.T) {
+	handlePct = 10
+	defer func() { handlePct = 0 }()
 	crashCheck(t, "C44", profValSep,
 		"value separation enabled with drawn thresholds (MinimumSize 4-64, MVCC-garbage size, reference depth 1-5, rewrite age 0, garbage ratios that force blob-file rewrites), values of 0-5000 bytes straddling the thresholds (older versions of a prefix are likely MVCC garbage), flushes, compactions, restarts, snapshots and crash images/crash-and-continue; every value read through Get, Iterator.Value, ValueAndErr and LazyValue().Value() must equal the model bytes, before and after each maintenance step and after recovery. "+
 			"non-trivial = blob files were live at some point and a compaction happened while values were compared afterwards; distinct = hash of plan JSON",
